@@ -8,3 +8,4 @@ import Pdpy11.Props.C01
 import Pdpy11.Props.C13
 import Pdpy11.Props.C19
 import Pdpy11.Props.C05
+import Pdpy11.Props.C17
